@@ -54,7 +54,7 @@ def spec_key(spec, with_mass=True):
 
 
 def build_table(rows, *, label_enc="1/-1", extra_levels=(), nfeat=2, key_cols=("ScanNr", "ExpMass"), missing_rt=False, share2=False,
-                int_mass=False):
+                int_mass=False, int_feats=False):
     """rows: list of dicts with id (int), spec (int), pep (int), tgt (bool), feats (list of float, optional),
     lvl (dict level-name -> int, optional), file (int, optional).  Returns a DataFrame in PIN column order."""
     n = len(rows)
@@ -85,7 +85,11 @@ def build_table(rows, *, label_enc="1/-1", extra_levels=(), nfeat=2, key_cols=("
     if "filename" in key_cols:
         d["filename"] = ["run%d.mzML" % r.get("file", 0) for r in rows]
     for j in range(nfeat):
-        d["f%d" % j] = [float(r.get("feats", [0.0] * nfeat)[j]) for r in rows]
+        if int_feats and j >= 1:
+            # whole-number features stored as integers (a matched-ion count; int64 in a text table and in Parquet)
+            d["f%d" % j] = np.asarray([int(round(float(r.get("feats", [0.0] * nfeat)[j]))) for r in rows], dtype=np.int64)
+        else:
+            d["f%d" % j] = [float(r.get("feats", [0.0] * nfeat)[j]) for r in rows]
     d["Peptide"] = ["K.PEP%dK.A" % r["pep"] for r in rows]
     for lv in extra_levels:
         d[LEVEL_COLS[lv]] = [level_string(lv, r["lvl"][lv]) for r in rows]
